@@ -490,7 +490,8 @@ def _do_request(S, ud, env, req):
 
 
 def apply_cmds(env, cmds):
-    """What a POSIX shell holds after sourcing the command list (values as the emitter quotes them).
+    """What a POSIX shell holds after sourcing the command list (values as the emitter quotes them):
+    `export K=V`, `unset K` (variable), `unset -f F` (function), `F() { … ; }`.
     Returns (env, functions defined, functions unset)."""
     env = dict(env)
     defs, undefs = {}, []
@@ -500,12 +501,10 @@ def apply_cmds(env, cmds):
             if len(v) >= 2 and v[0] == "'" and v[-1] == "'":
                 v = v[1:-1]
             env[k] = v
+        elif c.startswith("unset -f "):
+            undefs.append(c[len("unset -f "):])          # a shell function (alias) is removed; variables are untouched
         elif c.startswith("unset "):
-            k = c[len("unset "):]
-            if k in env:
-                del env[k]
-            else:
-                undefs.append(k)
+            env.pop(c[len("unset "):], None)             # a variable is removed (no effect on functions)
         elif "() {" in c:
             k = c.split("()", 1)[0]
             defs[k] = c
@@ -962,6 +961,7 @@ def case_input(case):
 
 def run_cases(ctx, cases, workers=6):
     """Returns [(case, G, raw results, impl observables, model observables)]"""
+    common.import_eups()            # in the parent, so that children inherit the imported (never constructed) eups
     raws = common.parallel_map(run_history, cases, workers=workers)
     reqs, spans = [], []
     for case, raw in zip(cases, raws):
@@ -1107,7 +1107,9 @@ def roundtrip_oracle(G_, case, raw, impl, model, stats):
         a, b = hist[i], hist[i + 1]
         if not (a["op"] == "setup" and b["op"] == "unsetup" and a["name"] == b["name"]):
             continue
-        ra, rb = raw[i], raw[i + 1] if i + 1 < len(raw) else {}
+        if i + 1 >= len(raw):
+            break                       # the history was cut short (a request nested too deep)
+        ra, rb = raw[i], raw[i + 1]
         if ra.get("outcome") != "ok" or "before" not in rb:
             continue
         if i + 1 >= len(impl) or impl[i].get("deep") or impl[i + 1].get("deep"):
@@ -1162,8 +1164,9 @@ def add_gadget(rng, g):
     g1 = copy.deepcopy(g)
     pool = g["pool"]
     wv, uv = rng.choice(pool), rng.choice(pool)
-    bad = rng.choice([{"a": "dep", "name": "zz", "opt": False, "just": False, "spec": {"kind": "bare"}},
-                      {"a": "dep", "name": "u", "opt": False, "just": False, "spec": {"kind": "explicit", "v": "9"}}])
+    # the requirement that fails names a product that does not exist: an unknown *version* would not do, because a
+    # -t tag inherited from a line further up outranks the version and rescues the request
+    bad = {"a": "dep", "name": "zz", "opt": False, "just": False, "spec": rng.choice([{"kind": "bare"}, {"kind": "explicit", "v": "1"}])}
     wt = [{"a": "prepend", "var": "PATH", "own": True, "val": "/bin", "append": False},
           {"a": "set", "var": "W_X", "own": True, "val": "/x"},
           {"a": "dep", "name": "u", "opt": False, "just": False, "spec": {"kind": "bare"}},
